@@ -34,7 +34,7 @@ PROVED = {
  "C06": "proved for all Boolean assignments: _encode_eq_const/_ne_const/_ne_var/_at_most_one/_exactly_one",
  "C09": "proved: network_simplex._residual",
  "C10": "proved: solve_hungarian optimality certificate (dual-feasible potentials of the zero-padded matrix, tight row-perfect matching, assignment = its restriction, objective = sum of the original entries, no arithmetic on +-inf), assignment_cost; weak duality and the padding argument are paper lemmas",
- "C11": "proved: dijkstra and astar (weight 1, consistent heuristic) real path AND optimality / infeasibility certificate, bfs real path AND minimal-length certificate by levels, dfs path validity, bellman_ford distance certificate, reconstruct_path, _reconstruct_indexed; no arithmetic on +-inf under finite weights",
+ "C11": "proved: dijkstra and astar (weight 1, consistent heuristic) real path AND optimality / infeasibility certificate, bfs real path AND minimal-length certificate by levels, dfs real path AND completeness certificate (INFEASIBLE only with a closed goal-free visited set), bellman_ford distance certificate, reconstruct_path, _reconstruct_indexed; no arithmetic on +-inf under finite weights",
  "C13": "proved: kruskal structure via the UnionFind contract, prim grows one tree of input edges with objective = weight sum, check_positive, check_edge_nodes (minimality: bounded only)",
  "C15": "proved: kcore filter (kcore_decomposition by assumed contract)",
  "C16": "proved: solve_knapsack (indices distinct and in range, objective = sum of values, weight test at every OPTIMAL return, DP value = the knapsack recursion KN, integer data unscaled), _to_int_capacity, check_non_negative; Bellman's principle is a paper lemma; solve_bin_pack bounded only",
